@@ -1335,8 +1335,10 @@ rv:
 					"text": fmt.Sprintf("Work.Do(n=%d), children=%v, initial Adds=%v; %s; fine-grained decisions %s", c.n, c.g, c.inits, itemsDesc(len(c.g)), dots(chosen(out.Decisions)))})
 		}
 	}
+	objRule := mainObjects(r, thorough)
 	res.Exhaustive = allCovered
 	_ = exhaustiveAll
+	defer func() { res.Rule += objRule }()
 	res.Rule = fmt.Sprintf("real par.Work on the vsync scheduler (instrumented copy regenerated from the source): exhaustive DFS over all schedules with <= %d pre-emptions (cap %d runs per configuration) for n in 1..3 over %d configurations (item graphs of <= 8 nodes, the nil interface value among the items, empty initial sets included; items are Go values of mixed dynamic types whose printed forms collide), incl. every Intn answer and every choice of the woken waiter; %d complete schedules drawn from the Coq model and replayed on the code; %d random / priority-based schedules for n <= 8 and random graphs of <= 24 items; a TRANSITION COVER of the model's complete state graph for each of these configurations whose graph has <= %d states (every transition of every reachable state taken on the code at least once; `exhaustive` = the cover was complete for all of them); %d runs whose initial Adds are made concurrently by 2-3 goroutines before Do; every executed schedule is replayed on the extracted model (event trace + runnable set after every step); %d further random schedules at the granularity of single sync operations (direct oracles only); the model's own state space is explored exhaustively for the small configurations. A case is non-trivial when its schedule has a pre-emption, a park or a Signal wake-up; distinct = distinct (configuration, event trace).", bound, maxRuns, len(smallGraphs()), nModel, nRand, coverCap, nPre, nFine)
 }
 
@@ -2430,6 +2432,18 @@ func replayInput(in map[string]string, src string) {
 		return
 	}
 	decs := undots(in["decisions"])
+	if prop == "C09" && strings.HasPrefix(in["cfg"], "pair ") {
+		if p, ok := parsePairCfg(in["cfg"]); ok {
+			onePair(p, runPair(p, &prefixStrat{prefix: decs}), src)
+		}
+		return
+	}
+	if prop == "C09" && strings.HasPrefix(in["cfg"], "nest ") {
+		if c, ok := parseNestCfg(in["cfg"]); ok {
+			oneNest(c, runNest(c, &prefixStrat{prefix: decs}), src)
+		}
+		return
+	}
 	if prop == "C09" {
 		c, ok := parseWorkCfg(in["cfg"])
 		if !ok {
